@@ -86,14 +86,32 @@ class Engine:
         self._wf_regions = set()
         State.hook = self.region_created
 
-    def region_created(self, region, arr):
-        """well-formedness of container contents in a freshly introduced region: sequence lengths are >= 0"""
+    def region_created(self, region, arr, alloc=None, sink=None):
+        """well-formedness of a freshly introduced region: sequence lengths are >= 0, and the heap is closed: every
+        object stored in it is allocated (w.r.t. `alloc`, default: the initial allocation set) or None"""
         key = str(arr)
-        if region.startswith("seq:") and key not in self._wf_regions:
-            self._wf_regions.add(key)
-            r = z3.Const("wf_r", Ref)
-            dt = arr.sort().range()
-            self.axioms.append(z3.ForAll([r], dt.accessor(0, 0)(arr[r]) >= 0))
+        if region == "alloc" or key in self._wf_regions: return
+        self._wf_regions.add(key)
+        sink = self.axioms if sink is None else sink
+        if alloc is None:
+            alloc = z3.Const("H0!alloc", z3.ArraySort(Ref, B))
+            if "H0!alloc" not in self._wf_regions:
+                self._wf_regions.add("H0!alloc"); self.axioms.append(alloc[NULL])
+        r = z3.Const("wf_r", Ref)
+        rng = arr.sort().range()
+        if region.startswith("seq:"):
+            sink.append(z3.ForAll([r], rng.accessor(0, 0)(arr[r]) >= 0))
+            if rng.accessor(0, 1).range().range() == Ref:
+                i = z3.Const("wf_i", I)
+                sink.append(z3.ForAll([r, i], alloc[rng.accessor(0, 1)(arr[r])[i]]))
+        elif rng == Ref:
+            sink.append(z3.ForAll([r], alloc[arr[r]]))
+        elif region.startswith("val:") and rng.range() == Ref:
+            k = z3.Const("wf_k", rng.domain())
+            sink.append(z3.ForAll([r, k], alloc[arr[r][k]]))
+        elif region.startswith("set:") and rng.domain() == Ref:
+            x = z3.Const("wf_x", Ref)
+            sink.append(z3.ForAll([r, x], z3.Implies(arr[r][x], alloc[x])))
 
     # ------------------------------------------------------------------ utilities
     def fresh(self, name, sort):
@@ -366,7 +384,17 @@ class Engine:
             yield st, st.loc[n.id]; return
         if n.id in self.reg.consts:
             yield st, self.const(self.reg.consts[n.id]); return
+        if n.id in self.reg.globals:
+            yield st, self.global_obj(n.id); return
         raise Unsupported("unbound name %s at line %s" % (n.id, n.lineno))
+
+    def global_obj(self, name):
+        ty = self.ptype(self.reg.globals[name])
+        c = z3.Const("global_" + name, ty.sort)
+        if ty.sort == Ref and ("g", name) not in self._wf_regions:
+            self._wf_regions.add(("g", name))
+            self.axioms.append(c != NULL); self.axioms.append(z3.Const("H0!alloc", z3.ArraySort(Ref, B))[c])
+        return SV(c, ty)
 
     def ev_Attribute(self, n, st):
         if isinstance(n.value, ast.Name) and n.value.id not in st.loc and (n.value.id + "." + n.attr) in self.reg.consts:
@@ -463,6 +491,8 @@ class Engine:
             raise Unsupported("comparison op")
 
     def contains(self, cont: SV, x: SV, st):
+        if isinstance(cont.ty, SetVT):
+            return cont.v[self.coerce(x, cont.ty.elem, st).v]
         if isinstance(cont.ty, SeqT):
             return self.seq_contains(cont.ty, cont.v, self.coerce(x, cont.ty.elem).v)
         ct = self.content_type(cont)
@@ -492,7 +522,18 @@ class Engine:
         if isinstance(op, ast.Add) and isinstance(a.ty, SeqT) and isinstance(b.ty, SeqT) and a.ty.sort == b.ty.sort:
             return self.seq_concat(a.ty, a.v, b.v, st)
         if isinstance(op, (ast.Add, ast.Mod)) and (a.ty is STR or b.ty is STR):
-            return self.fresh_sv("msg", STR)          # text of messages is dropped (opaque)
+            # concatenation / formatting as an uninterpreted FUNCTION of its operands (the text itself is dropped)
+            a2 = a if a.ty is STR else SV(z3.Function("str_of_" + T._sname(a.ty.sort), a.ty.sort, Str)(a.v), STR)
+            b2 = b if b.ty is STR else SV(z3.Function("str_of_" + T._sname(b.ty.sort), b.ty.sort, Str)(b.v), STR)
+            f = z3.Function("str_concat" if isinstance(op, ast.Add) else "str_format", Str, Str, Str)
+            r = SV(f(a2.v, b2.v), STR)
+            if not getattr(self, "_concat_ax", False):
+                self._concat_ax = True
+                x, y = z3.Consts("cc_x cc_y", Str)
+                for g in ("str_concat", "str_format"):
+                    gf = z3.Function(g, Str, Str, Str)
+                    self.axioms.append(z3.ForAll([x, y], gf(x, y) != SNONE))
+            return r
         raise Unsupported("binop %s on %s,%s line %s" % (type(op).__name__, a.ty, b.ty, getattr(n, "lineno", "?")))
 
     def seq_concat(self, sq, a, b, st):
@@ -919,6 +960,8 @@ class Engine:
         for nm in sorted(names):
             if nm in h.loc:
                 h.loc[nm] = self.fresh_sv("hv_" + nm, h.loc[nm].ty)
+        al0 = h.H("alloc", B); al1 = self.fresh("alloc_lp", al0.sort()); r = self.fresh("r", Ref)
+        h.pc.append(z3.ForAll([r], z3.Implies(al0[r], al1[r]))); h.setH("alloc", al1)
         frame = self.havoc_locs(h, pre, sp["modifies"], "lp%d" % k)
         return h, frame
 
@@ -928,14 +971,27 @@ class Engine:
         frame = {}
         for loc in locs:
             for region, sort, ref in SpecEval(self, evalstate, self.old or evalstate, {}).locations(loc):
+                al = st.H("alloc", B)
                 if ref is None:
                     na = self.fresh(hint + "_" + region.replace(":", "_"), z3.ArraySort(Ref, sort))
                     st.setH(region, na)
-                    self.region_created(region, na)
+                    self.region_created(region, na, al, st.pc)
                     frame[region] = None
                 else:
                     fv = self.fresh(hint + "_v", sort)
-                    if region.startswith("seq:"): st.pc.append(sort.accessor(0, 0)(fv) >= 0)
+                    tmp = self.fresh(hint + "_t", z3.ArraySort(Ref, sort))
+                    facts = []
+                    self.region_created(region, tmp, al, facts)
+                    rr = z3.Const("wf_r", Ref)
+                    for f in facts:      # instantiate the region facts for the single havocked location
+                        body = f.body()
+                        nvars = f.num_vars()
+                        vs = [z3.Const("wf_q%d" % j, f.var_sort(j)) for j in range(nvars)]
+                        inst = z3.substitute_vars(body, *reversed(vs))
+                        inst = z3.substitute(inst, (vs[0], ref))
+                        inst = z3.substitute(inst, (tmp[ref], fv))
+                        rest = vs[1:]
+                        st.pc.append(z3.ForAll(rest, inst) if rest else inst)
                     st.setH(region, z3.Store(st.H(region, sort), ref, fv))
                     if frame.get(region, []) is not None:
                         frame.setdefault(region, []).append(ref)
